@@ -6,7 +6,7 @@ FAMILY = "py28"
 
 MANIFEST = {
  "level": 'other',
- "text": 'Partly proved, partly explored. Proved for all inputs about the Gallina transcription of wheel/python/clvm_rs/{ser,casts,curry_and_treehash,program}.py against the classic codec model (C15/C16): sexp_to_bytes = the recursive ser; the stream decoder with the size-field check `bit_count > 6` accepts exactly what node_from_stream accepts, with the same tree and the same remaining input, raising only ValueError; the unrepaired decoder agrees on every input without a 0xfe byte and is REFUTED on fe 00 00 00 00 00 01 61 (finding F4: a 7-byte size field is accepted); int_from_bytes = int_of_bytes and int_to_bytes = bytes_of_int (the canonical encoding) for every integer; curry_hash(treehash m, map treehash args) = treehash(curry m args) for every 32-byte hash function; uncurry(curry m args) = (m, args). Not proved: "running a curried program = running the module on the prepended environment" (needs the interpreter model) -- decided on the implementation (the wheel's run API on both sides and the Rust run_program) on generated programs. The model is run against the wheel (python3 + the cdylib built from the current tree) and its literals are pinned to what the translator re-reads from the Python sources.',
+ "text": 'Partly proved, partly explored. Proved for all inputs about the Gallina transcription of wheel/python/clvm_rs/{ser,casts,curry_and_treehash,program}.py against the classic codec model (C15/C16): sexp_to_bytes = the recursive ser; the stream decoder with the size-field check `bit_count > 6` accepts exactly what node_from_stream accepts, with the same tree and the same remaining input, raising only ValueError; the unrepaired decoder agrees on every input without a 0xfe byte and is REFUTED on fe 00 00 00 00 00 01 61 (finding F4: a 7-byte size field is accepted); int_from_bytes = int_of_bytes and int_to_bytes = bytes_of_int (the canonical encoding) for every integer; curry_hash(treehash m, map treehash args) = treehash(curry m args) for every 32-byte hash function; uncurry(curry m args) = (m, args). Not proved: "running a curried program = running the module on the prepended environment" (needs the interpreter model) -- decided on the implementation (the run API of the wheel on both sides, and the Rust run_program) on generated programs. The model is run against the wheel (python3 + the cdylib built from the current tree) and its literals are pinned to what the translator re-reads from the Python sources.',
  "note": vlib.NOTE_COMMON + " For this property the implementation side of the correspondence is the wheel: wheel/python/clvm_rs plus the native module built by cargo from /repo's working tree, run under python3 by pyharness/driver.py. Level 'other' because one conjunct (curried run) is decided by search only (Props/C28.v names it).",
  "technique": 'Coq proof (explicit-stack/fuel refinement onto the classic codec model, finite byte sweeps by vm_compute) + translator pins + model/wheel/Rust three-way differential run',
 }
